@@ -459,7 +459,7 @@ func init() {
 		Extra:      c15Exhaustive,
 		Exhaustive: true,
 		Quick:      20000,
-		Thorough:   200000,
+		Thorough:   2000000,
 		Shards:     8,
 	})
 }
